@@ -27,9 +27,10 @@ def gen_cases(rnd, n):
         as_numbers = rnd.random() < 0.3
         nrows = rnd.randint(0, 8)
         npool = qgen.num_pool(rnd)
+        none_keys = rnd.random() < 0.08      # None group keys: one None key is fine, None next to a string cannot be ordered
         A = []
         for _r in range(nrows):
-            row = [rnd.choice(keyvals) for _k in range(max(nkeys, 1))]
+            row = [(None if none_keys and rnd.random() < 0.3 else rnd.choice(keyvals)) for _k in range(max(nkeys, 1))]
             for _c in range(nnum):
                 v = rnd.choice(npool)
                 row.append(qgen.num(v) if as_numbers else v)
